@@ -142,7 +142,8 @@ def build_runner(area="tok"):
         mod = "m_" + area
         srcs = [open(os.path.join(COQ, mod + ext)).read() for ext in (".ml", ".mli")]
         drv = "open M_%s\n" % area
-        for f in ("rcommon.ml", "run_%s.ml" % area, "rmain.ml"):
+        parts = ["rcommon.ml"] + (["rcommon_z.ml"] if "\ntype z =" in srcs[0] else []) + ["run_%s.ml" % area, "rmain.ml"]
+        for f in parts:
             drv += open(os.path.join(VERIF, "ml", f)).read() + "\n"
         key = sha("\0".join(srcs) + drv)[:16]
         out = os.path.join(ML, "runner-%s-%s" % (area, key))
